@@ -24,9 +24,12 @@ except ImportError:
 
 try:
     if sys.version_info >= (3, 14):
-        from compression.zstd import ZstdDecompressor  # noqa: I900
+        from compression.zstd import (  # noqa: I900
+            DecompressionParameter,
+            ZstdDecompressor,
+        )
     else:  # TODO(PY314): Remove mentions of backports.zstd across codebase
-        from backports.zstd import ZstdDecompressor
+        from backports.zstd import DecompressionParameter, ZstdDecompressor
 
     HAS_ZSTD = True
 except ImportError:
@@ -45,6 +48,11 @@ ZSTD_MAX_LENGTH_UNLIMITED = -1  # zstd uses -1 to mean unlimited
 # is quadratic over a stream of small members.
 MEMBER_WINDOW_MIN = 64
 MEMBER_WINDOW_MAX = 65536
+
+# Largest zstd window accepted, as log2 (8 MiB). The window is held in memory
+# by the decoder whatever the output limit is; a frame may declare 128 MiB.
+# https://www.rfc-editor.org/rfc/rfc9659#section-3
+ZSTD_WINDOW_LOG_MAX = 23
 
 # Cap on concatenated members decoded in one call. Real payloads are unlikely
 # to have more than a few members.
@@ -503,7 +511,9 @@ class ZSTDDecompressor(ConcatDecompressionHandler["ZstdDecompressor"]):
         self._decompressor = self._new_decompressor()
 
     def _new_decompressor(self) -> "ZstdDecompressor":
-        return ZstdDecompressor()
+        return ZstdDecompressor(
+            options={DecompressionParameter.window_log_max: ZSTD_WINDOW_LOG_MAX}
+        )
 
     def decompress_sync(
         self, data: bytes, max_length: int = ZLIB_MAX_LENGTH_UNLIMITED
